@@ -109,6 +109,10 @@ def geometry(case):
     if kind == "gens":  # the same bank shrunk by 2^-5 (exact in float32): multi-segment paths shorter than 1
         xyz, r = build.generic_geometry(n, int(case[2]))
         return [tuple(c * SMALL for c in q) for q in xyz], [v * SMALL for v in r]
+    if kind in ("genu", "genU"):  # another length unit: the bank x 2^-10 (mm for um) / x 2^10 - exact in float32; angles and counts are scale-free
+        f_ = 2.0 ** -10 if kind == "genu" else 2.0 ** 10
+        xyz, r = build.generic_geometry(n, int(case[2]))
+        return [tuple(c * f_ for c in q) for q in xyz], [v * f_ for v in r]
     disp = case[2]
     xyz = [LAT_ROOT] * n
     for i in sorted(range(n), key=lambda i: ref.depth(p, i)):
@@ -324,6 +328,20 @@ def oracle(R, t, p, kind, ctx, lm=None, long_radii=False):
                     R.check(g == [want_counts[i] for i in perm], "sholl:get", lambda: f"{ctx}: get({req}) = {g} want {[want_counts[i] for i in perm]}",
                             f"sholl:get:order:{onm}")
             sholl_obs = tuple(want_counts)
+            # the deprecated constructor spelling Sholl(tree, step=s): intersect(r) is still the count at r
+            if radii:
+                import warnings as _w
+
+                with _w.catch_warnings():
+                    _w.simplefilter("ignore")
+                    ok2, sh2 = R.impl("Sholl(step=)", lambda: Sholl(t, step=radii[0]))
+                if ok2:
+                    got2 = []
+                    for r in radii:
+                        ok3, v = R.impl("Sholl(step=).intersect", sh2.intersect, r)
+                        got2.append(int(v) if ok3 else None)
+                    R.check(got2 == want_counts, "sholl:intersect", lambda: f"{ctx}: Sholl(tree, step={radii[0]}).intersect at {radii} got {got2} want {want_counts}",
+                            "sholl:intersect:deprecated-step-constructor")
             if kind == "lat":
                 # A node exactly on the sphere (lattice: integer radial distances are exact in float32 and float64).  The definition
                 # leaves the convention open, but every reading counts each path between its one-sided limits: the count at r
@@ -708,6 +726,8 @@ def spaces(tier, seed):
                 yield ("gen", p, bank_k)
                 if n <= small_hi:
                     yield ("gens", p, bank_k)
+                    yield ("genu", p, bank_k)
+                    yield ("genU", p, bank_k)
         for n in range(3, lt_hi + 1):
             for p in S.labelled_trees(n):
                 if not ref.is_sorted(p):
@@ -717,6 +737,8 @@ def spaces(tier, seed):
         for n in range(st_hi + 1, bt_hi + 1):
             for p in S.binary_sorted_trees(n):
                 yield ("gen", p, bank_k)
+                if n == st_hi + 1:
+                    yield ("genu", p, bank_k)
 
     def gen_lattice():
         for n in range(1, lat_small + 1):
